@@ -26,8 +26,8 @@ ASSUMPTIONS = ["the cleanup code on the timeout exits is exercised, not modelled
                "only the clock reads that the unlimited run of a case performs are injection points (as the property's "
                "quantifier says); time-limited functions not driven by the harness (equimodular/unimodular tests are "
                "covered by C16's stream) are listed in DESIGN.md"]
-SUBS = {"ctu_test": 1, "tu": 2, "regular": 4, "sp": 6, "balanced": 7, "graphic": 8, "network": 9, "camion": 11, "tree": 14}
-SOURCES = ["c15", "c01", "c02", "c08", "c17", "c05", "c06", "c09", "c03"]
+SUBS = {"ctu_test": 1, "tu": 2, "regular": 4, "sp": 6, "balanced": 7, "graphic": 8, "network": 9, "camion": 11, "tree": 14, "equimod": 18}
+SOURCES = ["c15", "c01", "c02", "c08", "c17", "c05", "c06", "c09", "c03", "c16"]
 CODES = {1: "malformed record", 60: "after a timeout the same environment no longer reproduces the reference answer",
          61: "scratch stack not balanced after the time-limited call", 62: "scratch stack not balanced after the retry",
          63: "heap memory lost", 64: "an input matrix was modified",
